@@ -4,7 +4,9 @@
    (st, base, cont: the harness materialises the real datastore value / file / HTTP resource
    from it, for every concrete byte position the model byte stands for) and, per reference, the
    set of results Get may return (`exp`).  The harness Gets every reference through every read
-   API after every step and compares. *)
+   API after every step and compares.  `held` = the blocks handed out so far (the harness reads every
+   reference after every step and KEEPS every block it got): after every step the harness re-examines
+   all blocks it holds; each must project onto a member of `held` (RetainedGenuine: all genuine). *)
 EXTENDS VerifiedRead
 CONSTANTS D
 VARIABLE hist
@@ -27,11 +29,15 @@ GenConfigsFile == { C("file", 1, 3, 1, 1, "std"), C("file", 1, 3, 1, 1, "mmap"),
 GenConfigsUrl  == { C("url", 1, 3, 0, 1, "range"), C("url", 0, 3, 0, 1, "full") }
 
 ExpAll == [r \in Refs |-> GetResults(r)]
+\* blocks obtained by reading every reference in this state (the spec's Get, applied to all r)
+GotAll == UNION {Returned(r) : r \in Refs}
 Step(op, a, b) == hist' = Append(hist, [op |-> op, a |-> a, b |-> b,
-                                        st |-> st', base |-> base', cont |-> cont', exp |-> ExpAll'])
+                                        st |-> st', base |-> base', cont |-> cont', exp |-> ExpAll',
+                                        held |-> hist[Len(hist)].held \cup GotAll'])
 
 \* hist[1] is the pristine container (pseudo step "Init")
-GInit == Init /\ hist = <<[op |-> "Init", a |-> 0, b |-> 0, st |-> st, base |-> base, cont |-> cont, exp |-> ExpAll]>>
+GInit == Init /\ hist = <<[op |-> "Init", a |-> 0, b |-> 0, st |-> st, base |-> base, cont |-> cont, exp |-> ExpAll,
+                         held |-> GotAll]>>
 GNext == /\ Len(hist) < D + 1
          /\ \/ \E i \in 1..MaxLen, m \in Masks : Flip(i, m) /\ Step("Flip", i, m)
             \/ \E n \in 0..MaxLen : Truncate(n) /\ Step("Truncate", n, 0)
